@@ -333,12 +333,25 @@ def run_case(inp):
                 return (np.zeros(3, dtype=np.float32), np.array([0, 0, 0, 1], dtype=np.float32),
                         float(pos[0]) + 1000.0 * float(quaternion[2]) + 1e6 * float(quaternion[3]))
 
+            def _landscape(self, subvolume, template, max_shifts, quaternion, pos, backend):
+                q = np.zeros(4) if quaternion is None else quaternion       # a dropped keyword shows as 0
+                p0 = -1.0 if pos is None else float(pos[0])
+                return np.full((3, 3, 3), p0 + 1000.0 * float(q[2]) + 1e6 * float(q[3]), dtype=np.float32)
+
         qs = np.asarray(b.molecules.quaternion(), dtype=np.float64)
         want_kw = [float(p[0]) + 1000.0 * float(q[2]) + 1e6 * float(q[3]) for p, q in zip(b.molecules.pos, qs)]
         got_kw = [float(x) for x in b.score([tmpl], alignment_model=ProbeKw)[0]]
         if len(got_kw) != n or any(abs(a - w) > 0.5 for a, w in zip(got_kw, want_kw)):
             V("kwarg-rows", f"score(): task i does not receive molecule i's own pos/quaternion: got "
                             f"{[round(x, 1) for x in got_kw[:6]]}, molecules have {[round(x, 1) for x in want_kw[:6]]}")
+        try:
+            lds_kw = np.asarray(b.construct_landscape(tmpl, alignment_model=ProbeKw, max_shifts=1.0).compute())
+            got_l = [float(lds_kw[i].reshape(-1)[0]) for i in range(lds_kw.shape[0])]
+            if len(got_l) != n or any(abs(a - w) > 0.5 for a, w in zip(got_l, want_kw)):
+                V("kwarg-rows", f"construct_landscape(): task i does not receive molecule i's own pos/quaternion: got "
+                                f"{[round(x, 1) for x in got_l[:6]]}, molecules have {[round(x, 1) for x in want_kw[:6]]}")
+        except Exception as e:  # noqa: BLE001
+            V("no-error", f"construct_landscape with a probe model raised {type(e).__name__}: {str(e)[:100]}")
         al_kw = [float(x) for x in b.align(tmpl, alignment_model=ProbeKw, max_shifts=1.0).molecules.features["score"].to_list()]
         if any(abs(a - w) > 0.5 for a, w in zip(al_kw, want_kw)):
             V("kwarg-rows", f"align(): task i does not receive molecule i's own pos/quaternion: got "
@@ -395,6 +408,15 @@ def run_case(inp):
             alltags = sorted(t for _, ts in first for t in ts)
             if alltags != sorted(int(x) for x in b.molecules.features["tag"].to_list()):
                 V("group-partition", f"{label}: groups do not partition the molecules")
+            # every key is paired with its own group's result (keys need not appear in ascending order)
+            avg_all = grp.average()
+            for key, ld in grp:
+                kk = key[0] if isinstance(key, tuple) else key
+                got_avg = avg_all.get(key, avg_all.get(kk))
+                want_avg = np.asarray(ld.average())
+                if got_avg is None or np.abs(np.asarray(got_avg) - want_avg).max() > 1e-3:
+                    V("group-keys", f"{label}.average()[{kk}] is not the average of group {kk}'s own molecules")
+                    break
             if label != "groupby":
                 avg = grp.average()
                 if len(avg) != len(first):
